@@ -435,6 +435,28 @@ def run(db, tier):
                     pty = True
     rep.check(pty, "R-ARITY", "check_expr_call|arg_ty-vs-param_ty", f.loc, "argument type is compared with the parameter type",
               "no comparison between the checked argument type and the signature's parameter type")
+    # ---------------- R-WALK-COND: conditions reach the checker as conditions
+    rep.rule("R-WALK-COND", "the canonical statement walkers hand every `cond` child (conditional jumps, if/else-if chains, while and do-while) to "
+                            "visit_cond, the hook where the type checker enforces int-only conditions; none is passed to visit_expr directly")
+    for walker in ("ast::ref_::walk_stmt", "ast::mut_::walk_stmt"):
+        w = db.fn(walker)
+        rep.fn(w)
+        n_cond = 0
+        bad_c = []
+        for n_ in hir_walk(w.hir):
+            if n_.get("k") not in ("MCall", "Call"):
+                continue
+            fnm = n_.get("f") or ""
+            args = list(n_.get("a", [])) + ([n_["r"]] if n_.get("k") == "MCall" else [])
+            takes_cond = any(a_.get("k") == "Path" and a_.get("p") == "cond" for a_ in args)
+            if not takes_cond:
+                continue
+            if fnm.endswith("::visit_cond"):
+                n_cond += 1
+            elif fnm.endswith("::visit_expr"):
+                bad_c.append(n_.get("ln"))
+        rep.check(n_cond >= 4 and not bad_c, "R-WALK-COND", walker.rsplit("::", 2)[-2] + "::walk_stmt", w.loc, "%d conditions, all through visit_cond" % n_cond,
+                  "%s passes a `cond` to visit_expr (line %s; %d go through visit_cond): the int-only rule for conditions is not applied to that statement kind" % (walker, bad_c, n_cond))
     # ---------------- R-FUNC-STACK: the function whose return type `return` is checked against is the enclosing one
     import re as _re
     from rules import symeval as SY
